@@ -27,7 +27,7 @@ typedef struct {
 static uint64_t mix(int status, uint64_t h) { return fnv(h, &status, sizeof(status)); }
 
 /* --- compressors */
-static int comp_id, comp_flags;
+static int comp_id, comp_flags, comp_opt;   /* comp_opt: every option of the compressor set to a non-default value */
 static sqfs_u8 cin[3][600];
 static size_t cin_len[3];
 static sqfs_u8 packed[3][1200];
@@ -38,6 +38,16 @@ static void *comp_make(void)
 	sqfs_compressor_config_t cfg;
 	sqfs_compressor_t *c = NULL;
 	sqfs_compressor_config_init(&cfg, comp_id, 4096, comp_flags);
+	if (comp_opt) {
+		switch (comp_id) {
+		case SQFS_COMP_GZIP: cfg.level = 2; cfg.opt.gzip.window_size = 10; break;
+		case SQFS_COMP_XZ: cfg.level = 1; cfg.opt.xz.dict_size = 8192; cfg.opt.xz.lc = 1; cfg.opt.xz.lp = 1; cfg.opt.xz.pb = 1; cfg.flags |= SQFS_COMP_FLAG_XZ_X86; break;
+		case SQFS_COMP_LZMA: cfg.level = 1; cfg.opt.lzma.dict_size = 8192; cfg.opt.lzma.lc = 1; cfg.opt.lzma.lp = 1; cfg.opt.lzma.pb = 1; break;
+		case SQFS_COMP_ZSTD: cfg.level = 3; break;
+		case SQFS_COMP_LZ4: cfg.flags |= SQFS_COMP_FLAG_LZ4_HC; break;
+		default: break;
+		}
+	}
 	if (sqfs_compressor_create(&cfg, &c)) return NULL;
 	return c;
 }
@@ -317,10 +327,12 @@ int main(int argc, char **argv)
 	int found = 0;
 	for (size_t i = 0; i < sizeof(comps) / sizeof(comps[0]); ++i) {
 		char a[32], b[32];
-		snprintf(a, sizeof(a), "%s-compress", comps[i].n);
-		snprintf(b, sizeof(b), "%s-uncompress", comps[i].n);
+		for (int opt = 0; opt < 2; ++opt) {
+		snprintf(a, sizeof(a), "%s%s-compress", comps[i].n, opt ? "-opt" : "");
+		snprintf(b, sizeof(b), "%s%s-uncompress", comps[i].n, opt ? "-opt" : "");
 		if (!strcmp(kind, a) || !strcmp(kind, b)) {
 			comp_id = comps[i].id;
+			comp_opt = opt;
 			/* packed inputs for the uncompress variant */
 			comp_flags = 0;
 			sqfs_compressor_t *c = comp_make();
@@ -332,6 +344,7 @@ int main(int argc, char **argv)
 			sqfs_drop(c);
 			comp_flags = !strcmp(kind, b) ? SQFS_COMP_FLAG_UNCOMPRESS : 0;
 			K.make = comp_make; K.op = comp_op; K.nops = 4; found = 1;
+		}
 		}
 	}
 	if (!strcmp(kind, "frag-table")) { K.make = frag_make; K.op = frag_op; K.nops = 5; found = 1; }
